@@ -71,7 +71,17 @@ def props_program(draw):
             sets = [draw(one_set(semi)) for _ in range(draw(st.sampled_from([1, 1, 2])))]
             steps.append({"op": "PROPPATCH", "fe": fe, "afe": afe, "coll": coll, "set": sets, "remove": []})
         elif op == "REMOVE":
-            steps.append({"op": "PROPPATCH", "fe": fe, "afe": afe, "coll": coll, "set": [], "remove": [draw(one_set())[0]]})
+            if draw(st.booleans()):
+                steps.append({"op": "PROPPATCH", "fe": fe, "afe": afe, "coll": coll, "set": [], "remove": [draw(one_set())[0]]})
+            else:
+                # several instructions on one property in document order: remove-then-set ("reset"), set-then-remove, set-set
+                k, v = draw(one_set(semi))
+                k2, v2 = k, draw(one_set(semi))[1] if k not in (P_CALCOLOR, P_ABCOLOR, P_CALORDER) else v
+                pattern = draw(st.sampled_from([["remove", "set"], ["set", "remove"], ["set", "remove", "set"], ["remove", "set", "remove"], ["set", "set"]]))
+                instr = []
+                for i, what in enumerate(pattern):
+                    instr.append(["set", k, v if i % 2 == 0 else v2] if what == "set" else ["remove", k])
+                steps.append({"op": "PROPPATCH", "fe": fe, "afe": afe, "coll": coll, "instr": instr})
         elif op == "PUT":
             steps.append({"op": "PUT", "fe": fe, "afe": afe, "coll": draw(st.sampled_from(["c1", "b1"] if bmeta else ["c1"])), "name": draw(st.sampled_from(ics)), "ctype": "text/calendar", "body": enc_body(draw(st.sampled_from(bodies))), "cond": []})
         elif op == "DELETE":
